@@ -1,0 +1,101 @@
+//go:build verif
+// +build verif
+
+package gobinlog
+
+import (
+	"context"
+
+	"github.com/Breeze0806/gobinlog/replication"
+)
+
+// Exporting shims for the verification harness in /verif. No logic lives
+// here: every function forwards to the unexported code under test.
+
+// VerifParseEvents runs parseEvents over a caller-supplied event channel.
+func (s *Streamer) VerifParseEvents(ctx context.Context, events <-chan replication.BinlogEvent,
+	send SendTransactionFunc) (Position, error) {
+	s.sendTransaction = send
+	pos, err := s.parseEvents(ctx, events)
+	if err != nil {
+		return pos, err
+	}
+	return pos, nil
+}
+
+// VerifNowPos returns the position the streamer keeps for its next attempt.
+func (s *Streamer) VerifNowPos() Position {
+	return s.binlogPosition()
+}
+
+// VerifGetValuesFromRow forwards to getValuesFromRow.
+func VerifGetValuesFromRow(tm *replication.TableMap, table MysqlTable, rs *replication.Rows, i int) (*RowData, error) {
+	return getValuesFromRow(&tableCache{tableMap: tm, table: table}, rs, i)
+}
+
+// VerifGetIdentifiesFromRow forwards to getIdentifiesFromRow.
+func VerifGetIdentifiesFromRow(tm *replication.TableMap, table MysqlTable, rs *replication.Rows, i int) (*RowData, error) {
+	return getIdentifiesFromRow(&tableCache{tableMap: tm, table: table}, rs, i)
+}
+
+// VerifDumpConn is the exported twin of dumpConn.
+type VerifDumpConn interface {
+	Close() error
+	Exec(string) error
+	NoticeDump(uint32, uint32, string, uint16) error
+	ReadPacket() ([]byte, error)
+	HandleErrorPacket([]byte) error
+}
+
+// VerifSlaveConn wraps a slaveConnection built over a scripted connection.
+type VerifSlaveConn struct {
+	c *slaveConnection
+}
+
+// VerifNewSlaveConnection forwards to newSlaveConnection.
+func VerifNewSlaveConnection(open func() (VerifDumpConn, error)) (*VerifSlaveConn, error) {
+	c, err := newSlaveConnection(func() (dumpConn, error) {
+		d, e := open()
+		if e != nil {
+			return nil, e
+		}
+		return d, nil
+	})
+	if err != nil {
+		return nil, err
+	}
+	return &VerifSlaveConn{c: c}, nil
+}
+
+// StartDump forwards to startDumpFromBinlogPosition.
+func (v *VerifSlaveConn) StartDump(ctx context.Context, serverID uint32, pos Position) (<-chan replication.BinlogEvent, error) {
+	ch, err := v.c.startDumpFromBinlogPosition(ctx, serverID, pos)
+	if err != nil {
+		return nil, err
+	}
+	return ch, nil
+}
+
+// ReadEvent forwards to readBinlogEvent.
+func (v *VerifSlaveConn) ReadEvent() (replication.BinlogEvent, error) {
+	ev, err := v.c.readBinlogEvent()
+	if err != nil {
+		return nil, err
+	}
+	return ev, nil
+}
+
+// ErrChan exposes the error channel.
+func (v *VerifSlaveConn) ErrChan() <-chan *Error {
+	return v.c.errChan
+}
+
+// Close forwards to close.
+func (v *VerifSlaveConn) Close() {
+	v.c.close()
+}
+
+// VerifIsStreamEOF tells whether an error is the internal EOF marker.
+func VerifIsStreamEOF(err error) bool {
+	return err == errStreamEOF
+}
